@@ -4,5 +4,5 @@
 cd /verif
 ids=("$@"); [[ ${#ids[@]} -eq 0 ]] && ids=($(ls seeded | grep '^C'))
 for id in "${ids[@]}"; do
-  tools/mutant.sh "seeded/$id/patch.diff" "$id" --no-baseline 2>&1 | grep '^MUTANT' | sed "s#/verif/seeded/##; s#/patch.diff##" | while read -r l; do echo "- $(date -u +%H:%M) $l"; done | tee -a seeded/RESULTS.md
+  tools/mutant.sh "seeded/$id/patch.diff" "${id%%-*}" --no-baseline 2>&1 | grep '^MUTANT' | sed "s#/verif/seeded/##; s#/patch.diff##" | while read -r l; do echo "- $(date -u +%H:%M) $l"; done | tee -a seeded/RESULTS.md
 done
